@@ -101,7 +101,8 @@ class _YieldPoint(Exception):
 
 
 IGNORED_CALLS = {"warn", "print"}
-SET_METHODS = {"add", "discard", "remove", "clear", "copy", "update", "difference_update"}
+SET_METHODS = {"add", "discard", "remove", "clear", "copy", "update", "difference_update", "intersection", "union", "difference", "issubset", "issuperset", "isdisjoint",
+               "intersection_update", "symmetric_difference"}
 LIST_METHODS = {"append", "remove", "copy", "clear", "extend", "insert", "pop", "index", "count"}
 
 
